@@ -9185,6 +9185,7 @@ static cgns_subreg *cg_subreg_write(int fn, int B, int Z, const char *name,
     memset(subreg, 0, sizeof(cgns_subreg));
     strcpy(subreg->name, name);
     subreg->reg_dim = dimension;
+    subreg->location = CGNS_ENUMV(Vertex);
 
     return subreg;
 }
